@@ -10,7 +10,7 @@
 package cli
 
 //@ func NewProjectOptions
-//@   except nilfunc#1 : undischarged on the reference tree (engine limit or missing callee contract), not claimed
+//@   except nilfunc@9e542d#1 : undischarged on the reference tree (engine limit or missing callee contract), not claimed
 //@?  nopanic[C01,C17]   // a nil option function in opts is a caller error (nilfunc), not claimed
 //@   ensures[C17] err == nil ==> result.0 != nil
 //@   ensures[C17] err != nil ==> result.0 == nil
@@ -86,7 +86,7 @@ package cli
 //@   requires o != nil
 
 //@ func WithDotEnv
-//@   except precondition#1 : undischarged on the reference tree (engine limit or missing callee contract), not claimed
+//@   except precondition@125279#1 : undischarged on the reference tree (engine limit or missing callee contract), not claimed
 //@   nopanic[C01,C17]
 //@?  ensures[C17] forall k string :: old(has(o.Environment, k)) ==> has(o.Environment, k) && o.Environment[k] == old(o.Environment[k])
 //@   requires o != nil && o.Environment != nil
@@ -149,7 +149,7 @@ package cli
 //@   requires o != nil
 
 //@ func (*ProjectOptions).ReadConfigFiles
-//@   except index#2 : undischarged on the reference tree (engine limit or missing callee contract), not claimed
+//@   except index@4b8f32#1 : undischarged on the reference tree (engine limit or missing callee contract), not claimed
 //@   nopanic[C01]
 //@   requires options != nil
 //@   ensures err == nil ==> result.0 != nil   // needs (loader, out of scope) LoadConfigFiles: err == nil ==> result.0 != nil
@@ -159,7 +159,7 @@ package cli
 //@?     invariant config != nil && len(configs) == len(config.ConfigFiles)   // undischarged on the reference tree: not claimed
 
 //@ func (*ProjectOptions).LoadProject
-//@   except nilderef#11, nilderef#15 : undischarged on the reference tree (engine limit or missing callee contract), not claimed
+//@   except nilderef@5d4972#1, nilderef@5d4972#3 : undischarged on the reference tree (engine limit or missing callee contract), not claimed
 //@   nopanic[C01,C17]
 //@   requires o != nil
 
